@@ -33,7 +33,7 @@ def jobs(pid, tier):
     q = tier == 'quick'
     if pid == 'C07':
         if q:
-            return [vrt('C07', [r'mx2_.*_r1', r'mxpool_.*', r'mxown.*', r'mxcb.*'], bound=2, workers=2, ignore=[r'^mutex/fifo']),
+            return [vrt('C07', [r'mx2_.*_r1', r'mxpool_.*', r'mxown.*', r'mxcb.*'], bound=3, workers=4, ignore=[r'^mutex/fifo']),
                     vrt('C07', [r'mx2_(co-co|co-bl)_(dis-dis|dtor-awt|awt-awt|dis-move)_r2'], bound=2, workers=4, ignore=[r'^mutex/fifo']),
                     vrt('C07', [r'mx3_f[012]_r[023]'], bound=2, workers=8, ignore=[r'^mutex/fifo'])]
         return [vrt('C07', [r'mx2_.*_r1'], unbounded=True, workers=4, ignore=[r'^mutex/fifo']),
@@ -44,7 +44,7 @@ def jobs(pid, tier):
                 vrt('C07', [r'mx2_.*_r1'], bound=2, workers=4, ignore=[r'^mutex/fifo'], spurious=True)]
     if pid == 'C08':
         if q:
-            return [vrt('C07', [r'mx2_.*_r1', r'mxpool_.*', r'mxown.*', r'mxcb.*'], bound=2, workers=2),
+            return [vrt('C07', [r'mx2_.*_r1', r'mxpool_.*', r'mxown.*', r'mxcb.*'], bound=3, workers=4),
                     vrt('C07', [r'mx3_f[012]_r[0123]', r'mx4_f0_r0'], bound=2, workers=8)]
         return [vrt('C07', [r'mx2_.*_r1'], unbounded=True, workers=4),
                 vrt('C07', [r'mxpool_.*', r'mxown.*', r'mxcb.*'], bound=3, workers=4),
@@ -65,7 +65,7 @@ def jobs(pid, tier):
     if pid == 'C02':
         if q:
             return [vrt('C02', [r'wake1_.*'], unbounded=True, workers=2),
-                    vrt('C02', [r'wake2_.*'], bound=2, workers=2)]
+                    vrt('C02', [r'wake2_.*'], bound=3, workers=4)]
         return [vrt('C02', [r'wake1_.*'], unbounded=True, workers=2),
                 vrt('C02', [r'wake2_.*'], bound=3, workers=4),
                 vrt('C02', [r'wake3_.*'], bound=3, workers=16),
@@ -103,7 +103,7 @@ def jobs(pid, tier):
                 vrt('C18', [r'cb_.*'], unbounded=True, workers=2, **R)]
     if pid == 'C17':
         if q:
-            return [vrt('C17', [r'sf1_.*', r'sf_copy_before_init', r'sf_init_copy_getpromise', r'sf_reference_identity'], bound=2, workers=2),
+            return [vrt('C17', [r'sf1_.*', r'sf_copy_before_init', r'sf_init_copy_getpromise', r'sf_reference_identity'], bound=3, workers=4),
                     vrt('C17', [r'sf2_(promfn|futfn)_(val|drop)_(wait-coro|coro-drop|drop-drop|copydrop-poll|coro-coro|wait-drop)_.*'], bound=2, workers=2)]
         return [vrt('C17', [r'sf1_.*', r'sf_copy_before_init', r'sf_init_copy_getpromise', r'sf_reference_identity'], unbounded=True, workers=2),
                 vrt('C17', [r'sf2_.*'], bound=3, workers=4)]
